@@ -115,4 +115,61 @@ example : H1c tgtE srcE ∧ H1 tgtE srcE ∧ H2 csE tgtE srcE ∧ (cands csE tgt
   refine ⟨h1cb_iff.mp (by decide), H1c_H1 (h1cb_iff.mp (by decide)), ?_, by decide⟩
   exact (C12_envelope (cs := csE)).2.2.mp (by decide)
 
+
+/-! ### ON forms: the NULL-safe join is the ordinary join over re-encoded keys
+
+The correspondence renders `ON t.k IS NOT DISTINCT FROM s.k` (NULL joins NULL) and sends the rows to the model with a NULL
+key re-encoded as the key value `0,…,0`, which the generator never uses.  The theorem below is what makes every other
+theorem of this file apply to that ON form unchanged: on well-formed keys the model's join over the encoded keys is
+exactly NULL-safe equality of the original keys. -/
+
+/-- NULL-safe key equality: NULL joins NULL, a value joins an equal value -/
+def onNS (t : TRow) (s : SRow) : Bool := t.key == s.key
+
+/-- the harness's encoding of a possibly-NULL key of `nk` columns -/
+def encKey (nk : Nat) : Option (List Nat) → Option (List Nat)
+  | none => some (List.replicate nk 0)
+  | some k => some k
+
+/-- keys the generator produces: `nk` columns, every value ≥ 1 -/
+def KeyOk (nk : Nat) (k : Option (List Nat)) : Prop := ∀ l, k = some l → l.length = nk ∧ ∀ x ∈ l, 1 ≤ x
+
+theorem replicate_zero_ne_of_pos {nk : Nat} (h : 0 < nk) {l : List Nat} (hl : l.length = nk) (hp : ∀ x ∈ l, 1 ≤ x) :
+    (List.replicate nk 0 == l) = false ∧ (l == List.replicate nk 0) = false := by
+  have hne : List.replicate nk 0 ≠ l := by
+    intro e
+    cases l with
+    | nil => simp at hl; omega
+    | cons x xs =>
+      have hx : 1 ≤ x := hp x (by simp)
+      have : x ∈ List.replicate nk 0 := by rw [e]; simp
+      have := List.eq_of_mem_replicate this
+      omega
+  constructor
+  · exact beq_eq_false_iff_ne.mpr hne
+  · exact beq_eq_false_iff_ne.mpr (Ne.symm hne)
+
+theorem C12_nullsafe_encoding (nk : Nat) (h : 0 < nk) (t : TRow) (s : SRow) (ht : KeyOk nk t.key) (hs : KeyOk nk s.key) :
+    on { t with key := encKey nk t.key } { s with key := encKey nk s.key } = onNS t s := by
+  obtain ⟨tk, tv⟩ := t
+  obtain ⟨sk, sv⟩ := s
+  cases tk with
+  | none =>
+    cases sk with
+    | none => simp [on, onNS, encKey]
+    | some l =>
+      obtain ⟨hl, hp⟩ := hs l rfl
+      simp [on, onNS, encKey, (replicate_zero_ne_of_pos h hl hp).1]
+  | some k =>
+    cases sk with
+    | none =>
+      obtain ⟨hl, hp⟩ := ht k rfl
+      simp [on, onNS, encKey, (replicate_zero_ne_of_pos h hl hp).2]
+    | some l => simp [on, onNS, encKey]
+
+example : KeyOk 2 (some [1, 3]) ∧ KeyOk 2 none := by
+  refine ⟨?_, ?_⟩
+  · intro l hl; cases hl; simp
+  · intro l hl; cases hl
+
 end Fs.C12
